@@ -475,8 +475,10 @@ impl<'a> Exec<'a> {
                     self.stats.sig(6);
                     let fresh = AnyNode::build(&case.kind, case.hasher, 1);
                     if nodes[*node].observe(u) != fresh.observe(u) {
+                        // S2 serves C01 / C02 / C06, so this C19-tagged deviation is filtered out; the run
+                        // goes on, and what a restart that did not restart does to the node's later
+                        // answers is judged by the oracle of the property being checked
                         self.viol.push(v("C19", format!("{}/clear/state-mismatch", self.kname), self.step, format!("node {} after clear() answers differently from a fresh instance", node)));
-                        return;
                     }
                 }
                 NOp::Partition { .. } => self.stats.fault("net_partition"),
